@@ -155,7 +155,7 @@ func genCfg(t *rapid.T, p *genProfile) Cfg {
 	}
 	if p.compress {
 		c.DataFileMax = rapid.SampledFrom([]int64{256 << 10, 8 << 20, 4000 << 20}).Draw(t, "dfm_c")
-		c.BodyMax = 100 << 10
+		c.BodyMax = 800 << 10
 	}
 	if p.bigValues {
 		c.BodyMax = 50 << 20
@@ -291,6 +291,15 @@ func genValueCompress(t *rapid.T, c *Cfg, keyLen int, big bool) verifkit.ValSpec
 	}
 	if int64(size) > c.BodyMax {
 		size = int(c.BodyMax)
+	}
+	if rapid.IntRange(0, 13).Draw(t, "farmatch") == 0 {
+		// repetitions exactly one stride apart, strides around the widths of the compressor's match offset fields
+		salt := rapid.Uint32Range(0, 800).Draw(t, "stridesalt")
+		size = verifkit.StrideOf(salt)*rapid.IntRange(2, 3).Draw(t, "slots") + rapid.IntRange(0, 300).Draw(t, "extra")
+		if int64(size) > c.BodyMax {
+			size = int(c.BodyMax)
+		}
+		return verifkit.ValSpec{Class: "stride", Size: size, Salt: salt}
 	}
 	return verifkit.ValSpec{Class: class, Size: size, Salt: rapid.Uint32Range(0, 40).Draw(t, "salt")}
 }
